@@ -113,7 +113,7 @@ CLAIMED = {
     engine="driver-ai"),
  "C09": dict(
     category="other",
-    text="For EVERY public-key byte string and EVERY accepted private-key byte string, all three sets: P1 PublicKey::try_from_bytes is total and no panic/overflow/self-check obligation is violated along try_from_bytes -> into_bytes (the skEncode range self-checks C13 assumes are discharged here); P2 rho (and K, tr) are exact copies of their input byte ranges after deserialisation and are copied unmodified into the same ranges by into_bytes (exact-copy provenance tags / segments); P3 the ring arithmetic: one symbolic abstract run of try_from_bytes followed by into_bytes in which every decoded coefficient is a named symbol and linear forms modulo q are carried through NTT, the Montgomery conversions, the 2^d scaling, inverse NTT, the centring branch and the final shift - at the call of pkEncode/skEncode every one of the 256k (resp. 256(l+2k)) coefficients is EXACTLY its own symbol, in order, so t1' = t1 on [0,1023]^(256k) and (s1,s2,t0)' = (s1,s2,t0) on all accepted values including every extremal pattern; P4 the byte codecs: encoder/decoder byte ranges identical, tiling, FIPS layout, each field decoder accepts exactly the emitted coefficient range, and pkEncode(pkDecode(b)) = b, skEncode(skDecode(b)) = b BIT FOR BIT for every accepted b (every input bit a boolean symbol; bit fields followed as exact linear forms with a low/high split rule for masks, shifts and byte extraction). P3 and P4 compose to into_bytes(try_from_bytes(b)) = b for every accepted b - the first sentence of the property is proved. The converse (a re-deserialised generated key behaves identically) is supported by P2-P4, C04 K9 and C11 D6 (equal precompute maps modulo q) but representative-level struct equality is not shown, hence level 'other'.",
+    text="For EVERY public-key byte string and EVERY accepted private-key byte string, all three sets: P1 PublicKey::try_from_bytes is total and no panic/overflow/self-check obligation is violated along try_from_bytes -> into_bytes (the skEncode range self-checks C13 assumes are discharged here); P2 rho (and K, tr) are exact copies of their input byte ranges after deserialisation and are copied unmodified into the same ranges by into_bytes (exact-copy provenance tags / segments); P3 the ring arithmetic: one symbolic abstract run of try_from_bytes followed by into_bytes in which every decoded coefficient is a named symbol and linear forms modulo q are carried through NTT, the Montgomery conversions, the 2^d scaling, inverse NTT, the centring branch and the final shift - at the call of pkEncode/skEncode every one of the 256k (resp. 256(l+2k)) coefficients is EXACTLY its own symbol, in order, so t1' = t1 on [0,1023]^(256k) and (s1,s2,t0)' = (s1,s2,t0) on all accepted values including every extremal pattern; P4 the byte codecs: encoder/decoder byte ranges identical, tiling, FIPS layout, each field decoder accepts exactly the emitted coefficient range, and pkEncode(pkDecode(b)) = b, skEncode(skDecode(b)) = b BIT FOR BIT for every accepted b (every input bit a boolean symbol; bit fields followed as exact linear forms with a low/high split rule for masks, shifts and byte extraction). P3 and P4 compose to into_bytes(try_from_bytes(b)) = b for every accepted b - the first sentence of the property is proved. P5 the converse: the private key's precomputes are the same linear functions of (s1, s2, t0) modulo q in key generation and in deserialisation (every coefficient compared); with C04 K9, P2 and C11 D6 a generated key and its re-deserialised copy hold the same rho, K, tr and precomputes that agree modulo q, and signing / verification use the precomputes only through Montgomery products reduced modulo q with all range obligations discharged for both provenances - so they behave identically. Level 'other' only because that last step is an argument over the Montgomery contracts (C15) rather than a single mechanical check.",
     design_ref="DESIGN.md §4 C09, §2.5",
     note="The byte round trip is a proof over all keys (symbols, not samples); level 'other' because of the behavioural converse. Trusted: abstract interpreter soundness incl. the linear-congruence domain and exactification by range.",
     technique="abstract interpretation over monomorphic MIR with named symbols and linear forms modulo q (LIN tier: region-result lifting through atom definitions, exactification), root chaining, exact-copy provenance",
